@@ -372,11 +372,13 @@ pub fn run_c08(cfg: &Config) -> i32 {
 			RVal::Obj((0..9_000).map(|j| (format!("key{}", j), RVal::Bool(j % 2 == 0))).collect()),
 			RVal::Arr((0..70).map(|_| RVal::Arr((0..1000).map(|j| RVal::Num(j.to_string())).collect())).collect()),
 			RVal::Arr(vec![RVal::Obj(vec![("\u{e9}".repeat(66_000), RVal::Arr(vec![]))])]),
+			// numbers written in one piece: 4095, 4096, 5000 and 70,000 digits, after something else
+			RVal::Arr(vec![RVal::Null, RVal::Num("7".repeat(4095)), RVal::Num(format!("-{}.5e-3", "8".repeat(4096))), RVal::Obj(vec![("n".into(), RVal::Num("9".repeat(5000))), ("m".into(), RVal::Num(format!("1{}", "0".repeat(70_000))))])]),
 		] {
 			c08_one(&mut rep, "wide-values", &r);
 			rep.distinct_by_construction(1);
 		}
-		rep.count("wide_values", 5);
+		rep.count("wide_values", 6);
 		total.merge(rep);
 	}
 	// generated nested values
@@ -736,13 +738,14 @@ fn run_print(cfg: &Config, id: &'static str) -> i32 {
 			mon.rep.max("deepest_printed_nesting", depth as u64);
 		}
 		// values wider than 65,535 printed characters (arrays of many items, a long string inside a container, objects of many entries)
-		if sh < 6 {
+		if sh < 7 {
 			let r = match sh {
 				0 => RVal::Arr((0..40_000).map(|j| RVal::Num((j % 10).to_string())).collect()),
 				1 => RVal::Arr(vec![RVal::Str("s".repeat(70_000)), RVal::Null]),
 				2 => RVal::Obj((0..9_000).map(|j| (format!("key{}", j), RVal::Bool(j % 2 == 0))).collect()),
 				3 => RVal::Obj(vec![("wide".into(), RVal::Arr((0..33_000).map(|_| RVal::Null).collect())), ("k".into(), RVal::Num("1".into()))]),
 				4 => RVal::Arr((0..70).map(|_| RVal::Arr((0..1000).map(|j| RVal::Num(j.to_string())).collect())).collect()),
+				5 => RVal::Arr(vec![RVal::Null, RVal::Num("7".repeat(4095)), RVal::Num(format!("-{}.5e-3", "8".repeat(4096))), RVal::Obj(vec![("n".into(), RVal::Num("9".repeat(5000))), ("m".into(), RVal::Num(format!("1{}", "0".repeat(70_000))))])]),
 				_ => RVal::Arr(vec![RVal::Obj(vec![("\u{e9}".repeat(66_000), RVal::Arr(vec![]))])]),
 			};
 			let v = from_rval(&r);
